@@ -962,6 +962,11 @@ def ablate(s: Schema, what: str) -> Schema:
         for e in _all_enums(s):
             e.comment = keep(e.comment)
             e.value_comments = {k: v for k, v in ((k, keep(v)) for k, v in e.value_comments.items()) if v}
+    elif what == "builtin-type-names":
+        for m in _all_messages(s):
+            for i, fl in enumerate(m.fields):
+                if fl.name in BUILTIN_TYPE_NAMES:
+                    fl.name = "plain_%d_%d" % (i, fl.number)
     elif what == "special-names":
         for m in _all_messages(s):
             for i, fl in enumerate(m.fields):
@@ -996,7 +1001,7 @@ def ablate(s: Schema, what: str) -> Schema:
     return s
 
 
-ABLATIONS = ["comments-tricky", "comments-all", "special-names", "services", "maps", "oneofs",
+ABLATIONS = ["comments-tricky", "comments-all", "builtin-type-names", "special-names", "services", "maps", "oneofs",
              "optional", "repeated", "wkt", "enum-odd-numbers", "enum-fields", "message-fields"]
 
 
